@@ -3,6 +3,7 @@
 -/
 import Xandikos.Http.Spec
 import Xandikos.Http.FsMap
+import Xandikos.Http.Href
 import Xandikos.Py.PathProofs
 import Xandikos.Driver.Codec
 
@@ -28,6 +29,15 @@ def step (u : Unit) (line : String) : Unit × String :=
   | ["confined", root, f] =>
     -- the OS resolves `a/..` itself: judge the lexically normalised path
     (u, b (decide (Path.Confined (fieldS root).toList (Path.normpath (fieldS f).toList))))
+  | ["href", script, coll, name] =>
+    -- href emitted for member `name` of the collection at `coll` (name `~`: the collection itself)
+    let base := Path.rstripS (fieldS script) ++ fieldS coll
+    let h := match field name with
+      | some n => childHref base n
+      | none => ensureTrailingSlash base
+    (u, enc (hrefText h) ++ " " ++ enc (decodeTarget (hrefText h)))
+  | ["location", script, coll, name] =>
+    (u, enc (postLocation (fieldS script) (fieldS coll) (fieldS name)))
   | _ => (u, "bad-op")
 
 end Xandikos.PureDriver
